@@ -48,10 +48,13 @@ CLAIMED = {
         text="Lean 4 theorems about choose_compatible_weight's law (sums to 1, proportional when weights differ, uniform when equal incl. all zero, "
              "zero-probability options never returned, empty option list is an error) and about what each kind of pick (open, partner, list, start, "
              "transfer, hand-over) hands to the generator; every rng.choice call of every real run is compared with the model and with an independent "
-             "statement of the law; complete decision trees of bounded instances are enumerated with a scripted generator (path probabilities sum to 1).",
+             "statement of the law; complete decision trees of bounded instances are enumerated with a scripted generator (path probabilities sum to 1). "
+             "C08_translated_choose: the weight computation of choose_compatible_weight is TRANSLATED from core.py on every run (Extracted/Choose.lean) and proved equal "
+             "to the model's chooseProbs, so the choice laws hold of the code as written now; an unreadable but equivalent rewrite is validated over all weight "
+             "vectors of length 1-4 over {0, 1/2, 1, 2, 3} instead.",
         note="The tree-level normalisation is proved per decision node (C08_choose_sums_to_one) and checked by enumeration for whole trees; "
              "long-run frequencies are not used to decide.",
-        technique="Lean 4 proofs of the selection law + interface-level differential check + exhaustive path enumeration for bounded instances",
+        technique="Lean 4 proofs of the selection law (weight computation translated from source on every run) + interface-level differential check + exhaustive path enumeration for bounded instances",
         ref="7/C08"),
     "C12": dict(
         text="Lean 4 theorems about estimate, a line-by-line exact-rational model of _estimate_system_molecular_weight and the Mixture setters "
@@ -125,11 +128,13 @@ CLAIMED = {
     "C15": dict(
         text="Lean 4: one theorem per validation branch of the model parsers (unbalanced branches, ')' without '(', unknown descriptor symbol, unknown "
              "distribution, percentage range, negative mass, transition-list length) and per generation guard (not generable, missing prefix, prefix mismatch, "
-             "prefix open count, negative weight); C15_system_loop_terminates proves that the (repaired) System loop never runs out of fuel, with the two formerly "
+             "prefix open count, negative weight); C15_parsing_terminates: for EVERY text and every judgement of bracket atoms, parseSystem / parseMol / parseStoch / "
+             "parseToken never answer 'out of fuel' (scan consumes a character per step, the descriptor-cutting loop advances a cursor bounded by the number of "
+             "characters because no element is empty, the System / Molecule loops strictly shorten the text, no other parser carries fuel), with the two formerly "
              "diverging inputs decided by the kernel. Correspondence: accept / reject / divergence of model and code on every breaking operator x valid instance "
              "and on byte-level mutations; oracle: the operator's expected rejection, a wall-clock bound per parse, the misuse calls.",
-        note="Termination of the molecule loop is covered by the correspondence (model never reports diverge unless the code does), only the system loop is a theorem. "
-             "Two defects of the pinned tree (accepted ')(' , non-terminating System) were repaired by fix: commits.",
+        note="Termination is a theorem about the model (whose loops mirror the code's); that the code's loops are the model's is the correspondence (the model never "
+             "reports diverge, the code is run under a wall-clock bound). Two defects of the pinned tree (accepted ')(' , non-terminating System) were repaired by fix: commits.",
         technique="Lean 4 proofs of validation branches and loop termination + differential accept/reject check on a malformed stream",
         ref="7/C15"),
     "C16": dict(
